@@ -368,7 +368,7 @@ func c11Judge(c *mon.Ctx, in *c11In) {
 		c.Count("skipped:quote-out-of-domain")
 		return
 	}
-	tx := in.Tx.shape().Build()
+	tx := in.Tx.build(c)
 	fq := in.Quote.lib()
 	q := in.Quote.ref()
 	snap := takeSnap(tx)
